@@ -49,10 +49,15 @@ type c05Spec struct {
 	Ops       []c05Op    `json:"ops"`
 	Faults    []c05Fault `json:"faults,omitempty"`
 	Waiters   int        `json:"waiters"`
+	Version   string     `json:"version,omitempty"` // requested protocol version ("" = the client's default)
 }
 
 func genC05(r *vh.Rand, idx int) c05Spec {
-	s := c05Spec{Transport: append([]string{"pipe-stubborn"}, vhm.PairKinds...)[r.Intn(len(vhm.PairKinds)+1)], Waiters: r.Intn(3)}
+	s := c05Spec{Transport: append([]string{"pipe-stubborn"}, vhm.PairKinds...)[r.Intn(len(vhm.PairKinds)+1)], Waiters: r.Intn(3), Version: "2025-06-18"}
+	if r.Chance(1, 4) {
+		s.Version = "" // 2026-07-28 on persistent connections
+		s.Transport = r.Choose("mem", "pipe", "pipe-stubborn")
+	}
 	n := 0
 	horizon := r.Range(4, 12)
 	for i, k := 0, r.Range(2, 9); i < k; i++ {
@@ -223,7 +228,7 @@ func runC05(c *vh.Case, spec c05Spec) {
 			return fc
 		}
 	}
-	po := vhm.PairOpts{Kind: spec.Transport, Server: server, Client: client, ClientVersion: "2025-06-18", WrapClient: wrap("client"), AsyncDelete: true}
+	po := vhm.PairOpts{Kind: spec.Transport, Server: server, Client: client, ClientVersion: spec.Version, WrapClient: wrap("client"), AsyncDelete: true}
 	if spec.Transport == "mem" || spec.Transport == "pipe" || spec.Transport == "pipe-stubborn" {
 		po.WrapServer = wrap("server")
 	}
@@ -233,6 +238,7 @@ func runC05(c *vh.Case, spec c05Spec) {
 		return
 	}
 	cs, ss := pair.CS, pair.SS
+	c.Seen("negotiated", spec.Transport+"/"+cs.InitializeResult().ProtocolVersion)
 	if ss == nil {
 		c.Inconclusive("no server session for %s", spec.Transport)
 		cs.Close()
@@ -284,6 +290,7 @@ func runC05(c *vh.Case, spec c05Spec) {
 					_, err = ss.ListRoots(ctx, &mcp.ListRootsParams{Meta: mcp.Meta{"nonce": op.N}})
 				}
 				log.Add("call-return", "side", op.Side, "n", op.N, "outcome", outcome(err))
+				c.Seen("call-outcome", cs.InitializeResult().ProtocolVersion+"/"+spec.Transport+"/"+op.Side+"/"+strings.SplitN(outcome(err), ":", 2)[0])
 			})
 		case "notify", "notify-bad":
 			run(op.At, func() {
